@@ -5,7 +5,7 @@ stage 1 (gen):    enumerate AST mutants (comparison / arithmetic / boolean / con
 stage 2 (suite):  copy rxsci + tests to a scratch dir per mutant (under /dev/shm), run the pinned suite with -x; keep survivors
 stage 3 (checks): run the quick tier of the checks mapped to the mutated file against each survivor (RXSCI_REPO = copy)
 
-usage: automut.py gen|suite|checks|report  (state in /dev/shm/automut/state.json)
+usage: automut.py gen|suite|checks|recheck|report  (state in /dev/shm/automut/state.json)
 """
 import ast
 import copy
@@ -186,6 +186,10 @@ def suite():
 
 
 EXTRA = {'rxsci/operators/scan.py': ['C13'], 'rxsci/operators/map.py': ['C02'], 'rxsci/operators/filter.py': ['C02']}
+for _f in ('group_by', 'tee_map', 'first', 'last', 'take', 'distinct', 'distinct_until_changed', 'flat_map', 'start_with', 'assert_', 'multiplex'):
+    EXTRA.setdefault('rxsci/operators/%s.py' % _f, []).append('C13')          # an unhandled mux error travels through these
+for _f in ('roll', 'split', 'time_split', 'lag', 'pad', 'batch'):
+    EXTRA.setdefault('rxsci/data/%s.py' % _f, []).append('C13')
 
 
 def check_one(m):
@@ -247,6 +251,15 @@ if __name__ == '__main__':
     elif cmd == 'suite':
         suite()
     elif cmd == 'checks':
+        checks(None)
+    elif cmd == 'recheck':
+        # after the checks were extended: run the survivors of the previous pass again (own checks first, then EXTRA)
+        st_ = load()
+        for m_ in st_['mutants']:
+            if m_['status'] == 'not-caught-all':
+                m_['status'] = 'survived'
+                m_['previous'] = 'not-caught-all'
+        save(st_)
         checks(None)
     else:
         report()
